@@ -112,6 +112,8 @@ def cases(tier):
                     arg, ret = empty, dict(empty)
         return {"U": U, "m": m, "args": [arg], "rets": [ret], "prot": prot, "poly": poly,
                 "late": late,
+                # (drawn last: the rest of the case is what it was before this flag existed)
+                "late_running": bool(late and draw(st.booleans())),
                 "validator": None, "variant": 0}
     return one()
 
@@ -123,7 +125,7 @@ def _late_history(case):
     it like any other.  -> build.Built shared by both applications, or None"""
     U, m = case["U"], case["m"]
     if not case.get("late"):
-        return None
+        return None, None
     cs = {c["name"]: c for c in U["classes"]}
     t = m["args"][0][1]
     base = (t["of"] if t["k"] == "array" else t)["n"]
@@ -139,7 +141,7 @@ def _late_history(case):
             if c["extends"] and cs[c["extends"]]["extends"] is not None and c["name"] != base
             and c["name"] not in referenced and not any(d["extends"] == c["name"] for d in U["classes"])]
     if not late:
-        return None
+        return None, None
     B = build.Built(U, hold=[late[-1]])
     try:
         v0 = {"$obj": base, "f": {}}
@@ -150,8 +152,20 @@ def _late_history(case):
         drive.loopback_call(E0.app, "m0", [B.to_native(t, first["args"][0])])
     except Exception:
         pass
+    if case["prot"] in ("json", "yaml", "msgpack") and case.get("late_running"):
+        # the dict protocols select the subclass by wrapper key at run time, so a class declared
+        # while an application is RUNNING must be usable there too: the application under test
+        # is built and serves a request with a plain base value first, then the class is declared
+        def after_app(E):
+            try:
+                drive.loopback_call(E.app, "m0", [B.to_native(t, first["args"][0])])
+            except Exception:
+                pass
+            E.rec.reset()
+            B.declare(late[-1])
+        return B, after_app
     B.declare(late[-1])
-    return B
+    return B, None
 
 
 def _protocols(case):
@@ -249,7 +263,8 @@ def run_case(case, rec):
     sites_arg = subclass_sites(U, t, case["args"][0])
     sites_ret = subclass_sites(U, t, case["rets"][0])
     try:
-        E = c01.Env(case, protocols=_protocols, B=_late_history(case))
+        B0, hook = _late_history(case)
+        E = c01.Env(case, protocols=_protocols, B=B0, after_app=hook)
     except Exception as e:
         et, where = F.exc_origin(e)
         fails.append(("C16|build-raises|%s|%s" % (et, where), "building raised %r" % (e,)))
